@@ -19,7 +19,8 @@ RULE = ('histories over {save_spike_clusters (fresh vectors, the vector the inst
         'save_spikes_subset_waveforms (1 / 2 / 3 / 50 spikes per template), close, reload} run on the real TemplateModel over '
         'generated dataset directories with raw data (KS / ALF / labelled ALF names, with or without a spike-cluster file, '
         'int16/float32/int32 raw files in 1-3 parts; all spikes on one template; 22 raw parts with 0 / 1 / 2 spikes in the '
-        'kept chunks: subset stores of one spike or none; a store np.load rejects present before the first load); the freshly '
+        'kept chunks: subset stores of one spike or none; a store np.load rejects present before the first load; params.py '
+        'with n_closest_channels = 1 / 2: stores one or two columns wide); the freshly '
         'loaded model is compared with the Coq view after EVERY reload. quick: every history of length <= 3 over two '
         '10-symbol alphabets (closed by a reload; the second alphabet on a dataset with a loaded cluster_group.tsv: saves '
         'equal to the load-time snapshots) on two datasets and of length <= 2 on a one-spike-store dataset, a corpus, then 300 '
@@ -329,6 +330,20 @@ def generate(tier, rng):
     # a dangling symbolic link among the metadata files
     cases.append(_case(pool[0], [['foreign', 'labels.csv', {'kind': 'symlink'}], copy.deepcopy(g1), ['reload'],
                                  _foreign_valid(rng, 'labels.csv', ['ks_label']), ['reload']]))
+    # params.py sets n_closest_channels (class default 12): the store is max(max_n_channels or k, k) columns wide --
+    # ONE column for k = 1 (`assert nc > 0` at its boundary), two for max_n_channels = 2; stage-4 triage of the full
+    # mutation sweep (`nc > 1` survived: every other dataset has the default 12).  Own stream: the established
+    # cases keep their payloads.
+    rk = random.Random(1010)
+    for kw in (dict(names='ks', n_closest=1, n_channels=3, n_templates=2),
+               dict(names='alf', label='probe00', n_closest=2, n_channels=4),
+               dict(names='ks', n_closest=1, layout='unused', n_templates=2, n_spikes=4)):
+        dsn = T.make_dataset(rk, raw=True, **kw)
+        for h in ([['subset', 2, None], ['reload']],
+                  [['subset', 1, None], ['reload']],        # third dataset: one spike x one column
+                  [['subset', 1, 2], ['close'], ['reload'], ['subset', 50, None], ['reload']],
+                  [copy.deepcopy(g1), ['subset', 3, 16], ['reload'], ['subset', 2, 1], ['reload']]):
+            cases.append(_case(dsn, copy.deepcopy(h)))
     # a dataset that already has metadata files
     init = [['cluster_group.tsv', {'kind': 'text', 'text': 'cluster_id\tgroup\n0\tgood\n2\tmua\n'}],
             ['cluster_info.tsv', {'kind': 'text', 'text': 'cluster_id\tgroup\tdepth\n0\tbad\t10.5\n'}],
@@ -513,6 +528,9 @@ def _run_case(case):
         if inp.get('init_store'):
             T.write_broken_store(d, inp['init_store'], ds['sem']['n_samples_wf'])
         params = os.path.join(d, 'params.py')
+        if ds.get('n_closest'):
+            with open(params, 'a') as f:
+                f.write('n_closest_channels = %d\n' % ds['n_closest'])
         m = load_model(params)
         base = D.listing(d)
         nt = int(m.n_templates)
@@ -625,8 +643,9 @@ def _store(s):
     return '(Some (mkstore %s %s %s))' % (q.zl(s['ids']), q.zll(s['ch']), q.lst(s['w'], q.zll))
 
 
-def _width(o):
-    return max(o[2] or 12, 12)
+def _width(o, ds):
+    ncl = ds.get('n_closest') or 12          # TemplateModel.n_closest_channels (class default 12, params.py may set it)
+    return max(o[2] or ncl, ncl)
 
 
 def encode(case, obs):
@@ -667,7 +686,7 @@ def encode(case, obs):
         elif o[0] == 'foreign':
             ops.append('(WriteForeign %s %s)' % (_fname(o[1]), _mfile(o[2])))
         elif o[0] == 'subset':
-            ops.append('(SaveSubset %s %s)' % (q.zl(subset_ids.get(str(k), [])), q.z(_width(o))))
+            ops.append('(SaveSubset %s %s)' % (q.zl(subset_ids.get(str(k), [])), q.z(_width(o, ds))))
         elif o[0] == 'close':
             ops.append('CloseModel')
         else:
